@@ -409,6 +409,8 @@ func runWorker(master uint64, worker, workers, scheds, maxProgs int, budget floa
 			st.Probes["once_waits"] += r.Stats.OnceWaits
 			st.Probes["rwmutex_writer_queued"] += r.Stats.WriterQueued
 			st.Probes["cond_waits"] += r.Stats.CondWaits
+			st.Probes["goroutines_of_the_code_under_test_scheduled"] += r.Stats.GoTasks
+			st.Probes["waitgroup_waits"] += r.Stats.WgWaits
 			st.Probes["timers_armed"] += r.Stats.TimersArmed
 			st.Probes["timers_fired"] += r.Stats.TimersFired
 			st.Probes["clock_jumps_to_next_timer"] += r.Stats.TimerJumps
